@@ -57,6 +57,14 @@ func (c *Ctx) linFn(fn *ssa.Function) *lin.Fn {
 		return !written[last]
 	}
 	lf := lin.New(fn, immutable)
+	lf.Sub = func(g *ssa.Function) *lin.Fn {
+		if c.linDepth > 3 {
+			return nil
+		}
+		c.linDepth++
+		defer func() { c.linDepth-- }()
+		return c.linFn(g)
+	}
 	if m.ok {
 		lf.DataSuffix = "." + m.ReaderFile + "." + m.Data
 		lf.LenSuffix = "." + m.ReaderFile + "." + m.Len
